@@ -38,7 +38,9 @@ func (h *hashMergeStrategy) evaluate(m *MethodEvaluator) error {
 
 	hashT := m.evaluatedObjectT.DeepCopy()
 
-	hashT.MergeHash(evaluatedArgs[0])
+	if len(evaluatedArgs) > 0 {
+		hashT.MergeHash(evaluatedArgs[0])
+	}
 
 	m.parser.SetLastEvaluatedT(hashT)
 
